@@ -189,7 +189,10 @@ def _outputs(res: C.Result, deep: bool):
         # the definition that carries the name with the prefix taken out: every message must have its OWN entry in every
         # output, with its own hash — not another definition's, not filed under a shortened name
         j = 0
+        # quick tier: `hash_` and `MT_` in every tree, the other prefixes spread over the trees; thorough: all in every tree
         for pi, pre in enumerate(H.TABLE_PREFIXES):
+            if not deep and pi >= 2 and (pi - 2) % n != k % n:
+                continue
             for nm, other in ((f"{pre}ZQ{k}x{pi}A", f"ZQ{k}x{pi}A"), (f"Re{pre}ZR{k}x{pi}", f"ReZR{k}x{pi}")):
                 for name in ((other, nm) if (k + j) % 2 == 0 else (nm, other)):      # either definition order
                     mid = next(i for i in range(8300 + 40 * k + j, 9999) if i not in used_ids)
